@@ -1,0 +1,61 @@
+//go:build verif
+
+// Contracts for the acv verifier (/verif). Comment-only file: no executable code.
+
+package types
+
+// ---- LongDataTypeEncoder: declared type or failure policy, never a partly converted value (C19) ----
+//@ func (t *LongDataTypeEncoder) Encode(ctx context.Context, data []byte, format type_awareness.DataTypeFormat) (outCtx context.Context, out []byte, err error)
+//@   props C19 C14
+//@   safety
+//@   noinline EncodeOnFail
+//@   ensures binary-exact: ret(strconv.ParseInt)[1] == nil && ret(DataTypeFormat.IsBinaryFormat)[0] ==> err == nil && len(out) == 4 && le32(out) == uint32(ret(strconv.ParseInt)[0])
+//@   ensures text-length-encoded: ret(strconv.ParseInt)[1] == nil && !ret(DataTypeFormat.IsBinaryFormat)[0] ==> err == nil && sameslice(out, ret(base.PutLengthEncodedString)[0]) && sameslice(argof(base.PutLengthEncodedString)[0], data)
+//@   ensures policy-error-propagates: called(LongDataTypeEncoder.EncodeOnFail) && ret(LongDataTypeEncoder.EncodeOnFail)[2] != nil ==> err == ret(LongDataTypeEncoder.EncodeOnFail)[2] && out == nil
+//@   ensures policy-value-used: called(LongDataTypeEncoder.EncodeOnFail) && ret(LongDataTypeEncoder.EncodeOnFail)[2] == nil && ret(LongDataTypeEncoder.EncodeOnFail)[1] != nil ==> sameslice(out, ret(LongDataTypeEncoder.EncodeOnFail)[1]) && err == nil
+//@   ensures no-policy-value-is-error: called(LongDataTypeEncoder.EncodeOnFail) && ret(LongDataTypeEncoder.EncodeOnFail)[2] == nil && ret(LongDataTypeEncoder.EncodeOnFail)[1] == nil ==> err == base_mysql.ErrConvertToDataType && out == nil
+//@   ensures policy-consulted-when-unreadable: ret(strconv.ParseInt)[1] != nil && !ret(base.IsDecryptedFromContext)[0] ==> called(LongDataTypeEncoder.EncodeOnFail)
+//@   at call strconv.ParseInt : assert arg[1] == 10 && arg[2] == 32
+
+//@ func (t *LongDataTypeEncoder) EncodeOnFail(ctx context.Context, format type_awareness.DataTypeFormat) (outCtx context.Context, out []byte, err error)
+//@   props C19
+//@   noinline encodeDefault
+//@   ensures ciphertext-or-empty: ret(DataTypeFormat.GetResponseOnFail)[0] == common.ResponseOnFailEmpty || ret(DataTypeFormat.GetResponseOnFail)[0] == common.ResponseOnFailCiphertext ==> out == nil && err == nil
+//@   ensures error-policy: ret(DataTypeFormat.GetResponseOnFail)[0] == common.ResponseOnFailError ==> err != nil && out == nil
+//@   ensures default-policy: ret(DataTypeFormat.GetResponseOnFail)[0] == common.ResponseOnFailDefault && ret(DataTypeFormat.GetDefaultDataValue)[0] != nil ==> called(LongDataTypeEncoder.encodeDefault) && err == ret(LongDataTypeEncoder.encodeDefault)[2] && sameslice(out, ret(LongDataTypeEncoder.encodeDefault)[1])
+//@   ensures unknown-policy-rejected: ret(DataTypeFormat.GetResponseOnFail)[0] != common.ResponseOnFailEmpty && ret(DataTypeFormat.GetResponseOnFail)[0] != common.ResponseOnFailCiphertext && ret(DataTypeFormat.GetResponseOnFail)[0] != common.ResponseOnFailDefault && ret(DataTypeFormat.GetResponseOnFail)[0] != common.ResponseOnFailError ==> err != nil
+
+//@ func (t *LongDataTypeEncoder) encodeDefault(ctx context.Context, data []byte, format type_awareness.DataTypeFormat) (outCtx context.Context, out []byte, err error)
+//@   props C19 C14
+//@   safety
+//@   ensures unparsable-default-is-error: ret(strconv.ParseInt)[1] != nil ==> err != nil && out == nil
+//@   ensures binary-exact: ret(strconv.ParseInt)[1] == nil && ret(DataTypeFormat.IsBinaryFormat)[0] ==> err == nil && len(out) == 4 && le32(out) == uint32(ret(strconv.ParseInt)[0])
+//@   at call strconv.ParseInt : assert arg[1] == 10 && arg[2] == 32
+
+// ---- LongLongDataTypeEncoder: declared type or failure policy, never a partly converted value (C19) ----
+//@ func (t *LongLongDataTypeEncoder) Encode(ctx context.Context, data []byte, format type_awareness.DataTypeFormat) (outCtx context.Context, out []byte, err error)
+//@   props C19 C14
+//@   safety
+//@   noinline EncodeOnFail
+//@   ensures binary-exact: ret(strconv.ParseInt)[1] == nil && ret(DataTypeFormat.IsBinaryFormat)[0] ==> err == nil && len(out) == 8 && le64(out) == uint64(ret(strconv.ParseInt)[0])
+//@   ensures text-length-encoded: ret(strconv.ParseInt)[1] == nil && !ret(DataTypeFormat.IsBinaryFormat)[0] ==> err == nil && sameslice(out, ret(base.PutLengthEncodedString)[0]) && sameslice(argof(base.PutLengthEncodedString)[0], data)
+//@   ensures policy-error-propagates: called(LongLongDataTypeEncoder.EncodeOnFail) && ret(LongLongDataTypeEncoder.EncodeOnFail)[2] != nil ==> err == ret(LongLongDataTypeEncoder.EncodeOnFail)[2] && out == nil
+//@   ensures policy-value-used: called(LongLongDataTypeEncoder.EncodeOnFail) && ret(LongLongDataTypeEncoder.EncodeOnFail)[2] == nil && ret(LongLongDataTypeEncoder.EncodeOnFail)[1] != nil ==> sameslice(out, ret(LongLongDataTypeEncoder.EncodeOnFail)[1]) && err == nil
+//@   ensures no-policy-value-is-error: called(LongLongDataTypeEncoder.EncodeOnFail) && ret(LongLongDataTypeEncoder.EncodeOnFail)[2] == nil && ret(LongLongDataTypeEncoder.EncodeOnFail)[1] == nil ==> err == base_mysql.ErrConvertToDataType && out == nil
+//@   ensures policy-consulted-when-unreadable: ret(strconv.ParseInt)[1] != nil && !ret(base.IsDecryptedFromContext)[0] ==> called(LongLongDataTypeEncoder.EncodeOnFail)
+//@   at call strconv.ParseInt : assert arg[1] == 10 && arg[2] == 64
+
+//@ func (t *LongLongDataTypeEncoder) EncodeOnFail(ctx context.Context, format type_awareness.DataTypeFormat) (outCtx context.Context, out []byte, err error)
+//@   props C19
+//@   noinline encodeDefault
+//@   ensures ciphertext-or-empty: ret(DataTypeFormat.GetResponseOnFail)[0] == common.ResponseOnFailEmpty || ret(DataTypeFormat.GetResponseOnFail)[0] == common.ResponseOnFailCiphertext ==> out == nil && err == nil
+//@   ensures error-policy: ret(DataTypeFormat.GetResponseOnFail)[0] == common.ResponseOnFailError ==> err != nil && out == nil
+//@   ensures default-policy: ret(DataTypeFormat.GetResponseOnFail)[0] == common.ResponseOnFailDefault && ret(DataTypeFormat.GetDefaultDataValue)[0] != nil ==> called(LongLongDataTypeEncoder.encodeDefault) && err == ret(LongLongDataTypeEncoder.encodeDefault)[2] && sameslice(out, ret(LongLongDataTypeEncoder.encodeDefault)[1])
+//@   ensures unknown-policy-rejected: ret(DataTypeFormat.GetResponseOnFail)[0] != common.ResponseOnFailEmpty && ret(DataTypeFormat.GetResponseOnFail)[0] != common.ResponseOnFailCiphertext && ret(DataTypeFormat.GetResponseOnFail)[0] != common.ResponseOnFailDefault && ret(DataTypeFormat.GetResponseOnFail)[0] != common.ResponseOnFailError ==> err != nil
+
+//@ func (t *LongLongDataTypeEncoder) encodeDefault(ctx context.Context, data []byte, format type_awareness.DataTypeFormat) (outCtx context.Context, out []byte, err error)
+//@   props C19 C14
+//@   safety
+//@   ensures unparsable-default-is-error: ret(strconv.ParseInt)[1] != nil ==> err != nil && out == nil
+//@   ensures binary-exact: ret(strconv.ParseInt)[1] == nil && ret(DataTypeFormat.IsBinaryFormat)[0] ==> err == nil && len(out) == 8 && le64(out) == uint64(ret(strconv.ParseInt)[0])
+//@   at call strconv.ParseInt : assert arg[1] == 10 && arg[2] == 64
